@@ -216,6 +216,13 @@ impl<'r> TextGen<'r> {
         }
     }
     fn offset(&mut self) -> String {
+        // cursors at the limits of the integer types, 1 in 12
+        if self.rng.chance(1, 12) {
+            const X: [&str; 9] = ["-9223372036854775808", "-9223372036854775809", "-18446744073709551615", "9223372036854775807", "9223372036854775808", "18446744073709551615", "18446744073709551616", "-0", "0"];
+            let a = *self.rng.pick(&X[..]);
+            let b = *self.rng.pick(&X[..]);
+            return if self.rng.chance(1, 2) { format!("{}OFFSET{}{}{}{}", self.ws(), self.ws(), a, self.ws(), b) } else { format!("{}OFFSET{}{}", self.ws(), self.ws(), a) };
+        }
         match self.rng.below(6) {
             0 => format!("{}OFFSET{}{}{}{}", self.ws(), self.ws(), self.rng.range(0, 9), self.ws(), self.rng.range(9, 20)),
             1 => format!("{}OFFSET{}{}", self.ws(), self.ws(), self.rng.range(0, 9)),
